@@ -14,4 +14,5 @@ MCPanickers == @PANICKERS@
 MCStoppers == @STOPPERS@
 MCUnregs == @UNREGS@
 MCWaitFor == @WAITFOR@
+MCZeroMut == @ZEROMUT@
 =============================================================================
